@@ -8,3 +8,8 @@ import Bcder.Props.C17
 #print axioms Bcder.Props.C17.len_content
 #print axioms Bcder.Props.C17.hash_content
 #print axioms Bcder.Props.C17.hashFeed_content
+#print axioms Bcder.Props.C17.lexCompare_swap
+#print axioms Bcder.Props.C17.lexCompare_trans_lt
+#print axioms Bcder.Props.C17.cmp_swap
+#print axioms Bcder.Props.C17.cmp_trans
+#print axioms Bcder.Props.C17.cmp_eq_iff_eq
